@@ -27,7 +27,7 @@ class GenEdMap:
         return self.ids[ed]
 
 
-PRE = """From EV Require Import Base.Str Base.PyVal Base.Corr Model.Tokenize Model.TokenizeEq Model.Editions Model.Filter Model.Pipeline Model.Extract Model.E2E.
+PRE = """From EV Require Import Base.Str Base.PyVal Base.Corr Model.Tokenize Model.TokenizeEq Model.Editions Model.Filter Model.Pipeline Model.Extract Model.E2E Model.RefEngine Model.E2EClosed.
 From EV Require Import Gen.Unicode Gen.Consts.
 Open Scope Z_scope.
 Definition names_eqb := list_eqb (pair_eqb str_eqb str_eqb).
@@ -61,6 +61,13 @@ Definition run_e2e (c : (list (list (str * str) * str * list (nat * nat * list (
       end
   end.
 Definition e2e_eqb := result_eqb (list_eqb canon_eqb).
+Definition run_closed (c : Z * str * bool) :=
+  match get_citations_closed (fst (fst c)) (snd (fst c)) (snd c) with
+  | Ok l => Ok (map canon l)
+  | Err e => Err e
+  end.
+Definition run_refs (c : list (str * str) * str) := refs_engine (fst c) (snd c).
+Definition refs_eqb := list_eqb (pair_eqb (pair_eqb Nat.eqb Nat.eqb) (list_eqb (pair_eqb str_eqb ostr_eqb))).
 Definition run_extract (c : bool * str) : list tok :=
   if fst c then candidates_text_ref (snd c) else candidates_text (snd c).
 Definition toks_eqb := list_eqb tok_eqb.
@@ -159,3 +166,52 @@ def run_find(ctx, docs, p_ra=0.3):
             cases.append((inp, exp, dict(stream="find-e2e", text=d, remove_ambiguous=ra)))
     ctx.streams.append("find-e2e")
     core.corr_run(ctx, "e2e", PRE, "run_e2e", "e2e_eqb", cases, shard=3, timeout=1500, ty=TY)
+
+
+def run_closed(ctx, docs, p_ra=0.3):
+    """get_citations(text) vs the model evaluated on (current year, text) ALONE -- no data from the run enters the
+    model; plus the two former oracles on every call the run made (reference pattern, is_valid_name)"""
+    edmap = GenEdMap()
+    cases, rcases, vcases = [], [], []
+    seen_r, seen_v = set(), set()
+    ty = datetime.datetime.now().year
+    for d in docs:
+        for ra in ([False, True] if ctx.rng.random() < p_ra else [False]):
+            run = P.run_document(d, ra)
+            nt = run["out"][0] == "ok" and len(run["out"][1]) >= 2
+            ctx.case("find-closed", (d, ra), nt, dict(text=d, remove_ambiguous=ra) if nt and len(ctx.samples) < 10 else None)
+            ctx.count("find-closed document")
+            if run["out"][0] == "ok":
+                exp = "(Ok [" + "; ".join(P.canon_term(P.canon_py(c, edmap)) for c in run["out"][1]) + "])"
+            else:
+                exp = f"(Err {P.EXN.get(run['out'][1], 'TypeErr')})"
+            cases.append((f"({E.z(ty)}, {E.s(d)}, {E.b(ra)})", exp, dict(stream="find-closed", text=d, remove_ambiguous=ra)))
+            for (names, t), ms in run["rec"].refs.items():
+                key = (names, t)
+                if key in seen_r or len(t) > 400:
+                    continue
+                seen_r.add(key)
+                inp = "([" + "; ".join(f"({E.s(k)}, {E.s(v)})" for k, v in names) + f"], {E.s(t)})"
+                exp = "[" + "; ".join(f"({a}%nat, {b}%nat, [" + "; ".join(f"({E.s(k)}, {E.opt(v, E.s)})" for k, v in gd.items()) + "])"
+                                      for a, b, gd in ms) + "]"
+                ctx.case("ref-oracle", key, bool(ms), None)
+                rcases.append((inp, exp, dict(stream="ref-oracle", names=list(names), text=t)))
+            for k, v in run["rec"].valid.items():
+                if k not in seen_v:
+                    seen_v.add(k)
+                    ctx.case("valid-oracle", k, v, None)
+                    vcases.append((E.s(k), E.b(v), dict(stream="valid-oracle", name=k, python=v)))
+    # is_valid_name on its own corner cases as well
+    from eyecite.utils import DISALLOWED_NAMES, is_valid_name
+    for k in (["", "Ab", "Abc", "abc", "Abc.", "123", "١٢٣", "State", "United States", "ǅabc", "Σας", "ΑΣ", "İstanbul", "ßabc", "Éa b"]
+              + [x.title() for x in DISALLOWED_NAMES[:8]] + list(DISALLOWED_NAMES[:8])):
+        if k not in seen_v:
+            seen_v.add(k)
+            v = bool(is_valid_name(k))
+            ctx.case("valid-oracle", k, v, None)
+            vcases.append((E.s(k), E.b(v), dict(stream="valid-oracle", name=k, python=v)))
+    ctx.streams += ["find-closed", "ref-oracle", "valid-oracle"]
+    core.corr_run(ctx, "closed", PRE, "run_closed", "e2e_eqb", cases, shard=3, timeout=1500, ty=("Z * str * bool", TY[1]))
+    core.corr_run(ctx, "refor", PRE, "run_refs", "refs_eqb", rcases, shard=40, timeout=900,
+                  ty=("list (str * str) * str", "list (nat * nat * list (str * option str))"))
+    core.corr_run(ctx, "validor", PRE, "is_valid_name", "Bool.eqb", vcases, shard=400, timeout=600, ty=("str", "bool"))
